@@ -42,6 +42,7 @@ type Proc struct {
 	err           error
 	probes        []*Obligation
 	callProbes    []*Obligation
+	loopFrame     map[string]map[string]bool
 	pureDepth     int
 	heapReads     int
 	forceMerge    bool
@@ -59,7 +60,7 @@ func newProc(c *Ctx, fi *FuncInfo) *Proc {
 	return &Proc{ctx: c, fi: fi, contract: c.contracts[fi.Key],
 		heapEntry: map[string]*Term{}, maxStates: 600,
 		boxed: map[*types.Var]bool{}, capturedByRef: map[*types.Var]bool{},
-		closureOf: map[types.Object]*ClosureVal{}, rangeIdx: map[int]*types.Var{},
+		closureOf: map[types.Object]*ClosureVal{}, rangeIdx: map[int]*types.Var{}, loopFrame: map[string]map[string]bool{},
 		visited: map[int]*types.Var{}, iters: map[int]*types.Var{}, visitedSort: map[*types.Var]Sort{},
 		nameCount: map[string]int{}, cbParams: map[string]*types.Var{}, lets: map[string]Val{}, cbAlias: map[*types.Var]*types.Var{}, assertFired: map[*Clause]bool{}}
 }
@@ -617,6 +618,11 @@ func (p *Proc) evalSpecCall(ec *ectx, name string, call *ast.CallExpr) (Val, boo
 		}
 		al := p.heapGet(ec.old, "AL:", ArrSort(SInt, SBool))
 		return Val{T: And(Neq(v.T, IntLit(0)), Not(Sel(al, v.T))), Typ: boolT}, true
+	case "allocated":
+		// allocated(x): the object (pointer, map) x refers to exists in the current state
+		v := p.eval(ec, call.Args[0])
+		al := p.heapGet(ec.st, "AL:", ArrSort(SInt, SBool))
+		return Val{T: Sel(al, v.T), Typ: boolT}, true
 	}
 	return Val{}, false
 }
